@@ -808,5 +808,10 @@ class BaseBackend(CodeGen):
         kwargs['t_eval'] = times
 
         # call scipy solver
-        results = solve_ivp(fun=func, t_span=(t0, T), y0=y, first_step=dt, args=args, **kwargs)
+        # the generated function returns its (reused) output buffer; scipy keeps references to returned slopes across
+        # evaluations (e.g. the slope at the step start, re-used after a rejected step), so hand it copies
+        def rhs(t, y_, *args_):
+            return np.array(func(t, y_, *args_))
+
+        results = solve_ivp(fun=rhs, t_span=(t0, T), y0=y, first_step=dt, args=args, **kwargs)
         return results['y'].T
